@@ -11,13 +11,14 @@ def fmtToksO : Option (List Str) → String
 def parseNames (w : String) : Option (List Str) :=
   if w = "-" then some [] else (w.splitOn ",").mapM parseBytes?
 
-def fmtArgv (bounded : Bool) : Option ArgvRes → String
+/-- `argc`, then `offset:string` for every `argv[i]` (the C string read from
+the line after the call, bounded by the extent), then the line after the call -/
+def fmtArgv : Option ArgvRes → String
   | none => "fault"
   | some r =>
     toString r.argc
       ++ String.join (r.argv.map fun o => " " ++ toString o ++ ":" ++ bytesHex (cstrAtN r.mem o))
       ++ " |" ++ bytesHex r.mem
-      ++ (if bounded then "" else "")
 
 def fmtDispatch : Option Dispatch → String
   | none => "fault"
@@ -94,11 +95,11 @@ def stepLine (_ : Unit) (line : String) : Unit × String :=
     | ["argvn", b, m] => do
         let b ← parseBytes? b
         let m ← m.toNat?
-        pure (fmtArgv true (argvSplitN b m))
+        pure (fmtArgv (argvSplitN b m))
     | ["argv", b, m] => do
         let b ← parseBytes? b
         let m ← m.toNat?
-        pure (fmtArgv false (argvSplit (b ++ [NUL]) m))
+        pure (fmtArgv (argvSplit (b ++ [NUL]) m))
     | ["msh", t] => do
         let t ← parseBytes? t
         pure (fmtDispatch (mshellExecute (t ++ [NUL]) []))
